@@ -26,6 +26,7 @@ import sys
 import time as _time
 import warnings
 
+import ro_calls as RO
 from common import impl_error
 
 PROP = "C08"
@@ -924,6 +925,96 @@ def inject_bad_calls(rng, history, first=True, density=0.25, noassert=False):
     return out
 
 
+# ------------------------------------------------------------------------------------------------
+# round 6: read-only calls interleaved into a history (harness/ro_calls.py).  A history element
+# ["ro", path, kind, name, flags, args] is one observer-style call (Terminal.debug(), repr(timeslot), Transmission.is_last_block(),
+# get_rx_sequence(increment=False), the logging helpers, reading every attribute ...) on a live object of the tracker, found by
+# introspection; like a rejected call it is not a burst of the alphabet, the model is not told about it, it must change nothing
+# (deep picture of terminal / time slots / transmissions / watcher, class and module data, the entropy counter, the observers' logs)
+# and the bursts around it must be answered exactly as without it.
+# ------------------------------------------------------------------------------------------------
+RO_POOLS = {"msg": ["status", "%s %d", ""], "exc": [None]}
+
+
+def ro_roots(term, watch):
+    roots = {"terminal": term}
+    if watch is not None:
+        roots["watcher"] = watch
+    return roots
+
+
+def ro_dynamic(slot):
+    """objects that exist only while a transmission is open: its header and its first / second block (protocol calls only)"""
+    tx = ["terminal", ["a", "timeslots"], ["k", slot - 1], ["a", "transmission"]]
+    return [tx + [["a", "header"]], tx + [["a", "blocks"], ["i", 0]], tx + [["a", "blocks"], ["i", 1]]]
+
+
+_RO_CAT = {}
+
+
+def ro_specs(watcher):
+    """the catalogue of a new tracker (discovered once per process; what a change ADDS to the classes is in it)"""
+    if watcher not in _RO_CAT:
+        l = L()
+        from okdmr.dmrlib.transmission.transmission_watcher import TransmissionWatcher
+
+        with quiet(Counter()):
+            if watcher:
+                watch = TransmissionWatcher([])
+                watch.ensure_terminal(1)
+                term = watch.terminals[1]
+            else:
+                watch, term = None, l.Terminal(1, [])
+            skipped = []
+            specs = RO.all_specs(ro_roots(term, watch), RO_POOLS, _random.Random(8), skipped)
+        for slot in (1, 2):
+            for path in ro_dynamic(slot):
+                specs += [[path, "proto", p, {}, {}] for p in RO.PROTO_ALWAYS]
+        _RO_CAT[watcher] = (specs, skipped)
+    return _RO_CAT[watcher]
+
+
+def inject_ro_calls(rng, history, watcher=False, density=0.3):
+    """interleave read-only calls (a random subset of the catalogue, rotating with the seed) between the elements of a history"""
+    specs, _ = ro_specs(bool(watcher))
+    out = []
+    n_total = 0
+    for i, el in enumerate(history):
+        n = 0
+        if rng.random() < density or (i == len(history) // 2 and n_total == 0):
+            n = rng.randrange(1, 3)
+        for _ in range(n):
+            out.append(["ro"] + rng.choice(specs))
+            n_total += 1
+        out.append(el)
+    if rng.random() < 0.5:
+        out.append(["ro"] + rng.choice(specs))
+    return out
+
+
+def do_ro_call(term, watch, observers, counter, spec, step, info, fails):
+    roots = ro_roots(term, watch)
+    try:
+        obj = RO.resolve(spec[0], roots)
+    except Exception:  # noqa: the object of this path does not exist in this state (no header yet, no watcher)
+        obj = None
+    if obj is None or not RO.is_lib_obj(obj):
+        info.setdefault("ro", []).append([spec[2] if spec[1] == "proto" else "call:" + spec[2], "no-such-object"])
+        return
+    text = RO.spec_text(spec)
+    before = [len(o.log) for o in observers]
+    s0 = RO.snapshot(roots, extra=counter.n)
+    answer, _ = RO.perform(obj, spec, other=term.timeslots[2])
+    s1 = RO.snapshot(roots, extra=counter.n)
+    info.setdefault("ro", []).append([spec[2] if spec[1] == "proto" else "call:" + spec[2], answer])
+    if s0 != s1:
+        fails.append(("read-only-call", f"the read-only call {text} (answer: {answer}) at step {step} changed the state of the tracker", "nothing changes",
+                      RO.first_diff(s0, s1)))
+    if [len(o.log) for o in observers] != before:
+        fails.append(("read-only-call", f"the read-only call {text} (answer: {answer}) at step {step} delivered notifications",
+                      [], [o.log[n:] for o, n in zip(observers, before)][:1]))
+
+
 def run_history(raises, history, watcher=False, ambient=None, flavour=0, info=None):
     """feed one history to a real Terminal (directly, or through a TransmissionWatcher that ends with
     end_all_transmissions).  Returns (lines for the model, impl outputs, oracle failures)."""
@@ -981,6 +1072,9 @@ def _run_history(raises, history, watcher, flavour, info, counter, lines, outs, 
             fails.append(("stream-id-not-fresh", "the two time slots start with the same stream id", None, None))
         for step, el in enumerate(history):
             _hook()
+            if el[0] == "ro":
+                do_ro_call(term, watch, observers, counter, el[1:], step, info, fails)
+                continue
             if el[0] == "bad":
                 _, kind, slot, hexbytes, btype = el
                 before = [len(o.log) for o in observers]
@@ -1092,6 +1186,14 @@ def _run_history(raises, history, watcher, flavour, info, counter, lines, outs, 
         for o in info.pop("removed_observers", []):
             if o.log:
                 fails.append(("observer-isolation", "an observer that was removed again (remove_observer) still received notifications", [], o.log[:3]))
+        if info.get("ro_sweep"):
+            # the final look through every observer of every object (the run without interleaved calls does the same): what the
+            # observers THEMSELVES answer at the end, and the deep picture, must not depend on the calls made on the way
+            roots = ro_roots(term, watch)
+            before = [len(o.log) for o in observers]
+            info["ro_final"], specs, changed = RO.checked_sweep(roots, RO_POOLS, 5 + sum(1 for el in history if el[0] not in ("ro", "bad")), lambda: counter.n)
+            if changed or [len(o.log) for o in observers] != before:
+                info["ro_sweep_changed"] = [changed or "notifications were delivered", specs]
         lines.append("t.state")
         outs.append(slot_state(term.timeslots[1]) + " / " + slot_state(term.timeslots[2]) + " / " + str(counter.n))
     return lines, outs, fails
@@ -1521,13 +1623,15 @@ def build_history(job):
         history = job["history"]
     if job.get("inject") is not None:
         history = inject_bad_calls(_random.Random(job["inject"]), history, first=True, noassert=bool(job.get("noassert")))
+    if job.get("roinject") is not None:
+        history = inject_ro_calls(_random.Random(job["roinject"]), history, watcher=job.get("watcher", False))
     return history
 
 
 def job_run(job):
     """one job in a worker process: build the history (if it is a seeded one) and run it on the real code"""
     history = build_history(job)
-    info = {}
+    info = {"ro_sweep": True} if job.get("rosweep") else {}
     lines, outs, fails = run_history(job["raises"], history, watcher=job.get("watcher", False), ambient=job.get("ambient"),
                                      flavour=job.get("flavour", 0), info=info)
     if job.get("ambient") in REAL_ENTROPY and any(f[0] == "stream-id-not-fresh" for f in fails):
@@ -1702,6 +1806,7 @@ def run(ctx):
         "by writers that raise, the root logger at DEBUG, `random` reseeded between bursts with the real entropy source, a moving "
         "clock, warnings as errors, and in a child `python -O` process whose first calls are rejected ones and whose descriptors 1 "
         "and 2 are finally broken; every answer must equal the one of the ordinary run. "
+        " ROUND 6, READ-ONLY CALLS: observer-style calls found by introspection on the live objects (repr / str / len / bool / == / hash / copy / every attribute, debug(), get_* / is_* / has_* / match_* without auto-create, the log helpers, on every library object reachable) are interleaved into histories: the same history runs without and with them in fresh objects; each call must leave the deep picture of the objects, their class / module data and the stubs' counters unchanged, every answer, the final state and a final sweep through the whole catalogue (made, and itself checked, at the end of every such history) must be identical, and the model is driven with the history without the calls; reviewed exclusions (calls that advance by design) are listed in harness/ro_calls.py EXCLUDED. "
         "A case is one history under one observer configuration and one ambient condition; distinct = distinct of those."
     )
     ctx.trusted_base += [
@@ -1837,6 +1942,39 @@ def run(ctx):
         jobs.append(ref)
         for j in range(4):
             jobs.append(dict(ref, ambient=AMBIENTS[(4 * k + j) % len(AMBIENTS)], count=None))
+    # ---- round 6: read-only calls interleaved (harness/ro_calls.py): the same history once without and once with observer-style
+    # calls between its elements, in fresh objects; both end with a sweep through the whole catalogue.  Own random stream (the
+    # histories of the other sections stay what they were); a fixed share, not boosted.
+    ro_rng = _random.Random(f"C08:ro:{ctx.seed}")
+    ro_base = [dict(j) for j in jobs if j.get("group", ("", 0))[0] == "corpus" and j["raises"] == configs[0]]
+    ro_base += [dict(j) for j in pair_jobs[ctx.seed % 7:: 7]]
+    for k in range(150 if not ctx.thorough() else 1200):
+        ro_base.append({"kind": "random", "desc": "random", "raises": configs[k % 4], "seed": ro_rng.getrandbits(64), "max_len": 25 if k % 5 else 80,
+                        "watcher": k % 4 == 3, "flavour": (k // 4) % len(FLAVOURS)})
+    for k in range(4):
+        total = WRAP_TOTALS[(ctx.seed + 5 * k) % len(WRAP_TOTALS)]
+        ro_base.append({"kind": "wrap", "desc": f"end on burst {total} since the last restart", "raises": configs[k % 4], "seed": ro_rng.getrandbits(64), "total": total,
+                        "how": WRAP_KINDS[(ctx.seed + k) % 3], "slot": 1 + k % 2})
+        n_open = OPEN_COUNTS_QUICK[(ctx.seed + 3 * k) % len(OPEN_COUNTS_QUICK)]
+        ro_base.append({"kind": "open", "desc": f"open data transmission of {n_open} blocks", "raises": configs[k % 4], "seed": ro_rng.getrandbits(64), "n": n_open,
+                        "shape": OPEN_SHAPES[(ctx.seed + k) % len(OPEN_SHAPES)], "ender": OPEN_ENDERS[k % 3], "slot": 1 + k % 2, "watcher": OPEN_ENDERS[k % 3] == "end-all-transmissions"})
+    for k, base in enumerate(ro_base):
+        for key in ("inject", "count", "counts", "sample", "ambient"):
+            base.pop(key, None)
+        ref = dict(base, group=("ro", k), rosweep=True, count="read-only:reference")
+        jobs.append(ref)
+        jobs.append(dict(ref, roinject=ro_rng.getrandbits(48), count="read-only:interleaved"))
+        if k % 6 == 5:
+            # read-only calls AND rejected calls in one history (reference: the same rejected calls alone - a rejected call may leave the time of the last packet)
+            ref2 = dict(ref, inject=ro_rng.getrandbits(48), group=("ro+rejected", k), count="read-only:reference+rejected")
+            jobs.append(ref2)
+            jobs.append(dict(ref2, roinject=ro_rng.getrandbits(48), count="read-only:interleaved+rejected"))
+    for what in ro_specs(False)[1] + ro_specs(True)[1]:
+        ctx.count("read-only:not-called:" + what[:110])
+    ctx.count("read-only:catalogue-size", len(ro_specs(True)[0]))
+    if RO.no_exclusions():
+        ctx.notes.append("VERIF_RO_NOEXCLUDE is set: the reviewed exclusions of harness/ro_calls.py are void in this run (review mode)")
+    ro_state = {"shrunk": 0, "reported": 0, "final": {}}
     # ---- the child interpreter (python -O) runs while the pool works
     child_jobs = []
     for j in amb_jobs:
@@ -1892,6 +2030,9 @@ def run(ctx):
             ctx.count("rejected-call-answer:" + answer)
             if first:
                 ctx.count("rejected-call:first-call-on-the-terminal")
+        for what, answer in info.get("ro", []):
+            ctx.count("read-only-call:" + what)
+            ctx.count("read-only-call-answer:" + answer)
         if res["tainted"]:
             ctx.count("rejected-call:corrupted-burst-accepted(run-dropped)")
         if job["kind"] == "random":
@@ -1903,8 +2044,26 @@ def run(ctx):
             ev = o.split(" ", 4)[-1].split("|")[0]
             for e in ev.split(";"):
                 ctx.count("event:" + (e.split(":")[0] + ":" + e.split(":")[1][:1] if e != "-" else "-"))
+        ro_hits = [f for f in fails if f[0] == "read-only-call"]
         for kind, what, exp, act in fails:
-            ctx.fail(kind, inp, f"{what} [{desc}{' under ' + amb if amb else ''}]", expected=exp, actual=act)
+            if kind != "read-only-call" and not ro_hits:  # (what else fails behind a read-only call that changed state follows from it: the shortened history is reported)
+                ctx.fail(kind, inp, f"{what} [{desc}{' under ' + amb if amb else ''}]", expected=exp, actual=act)
+        if job.get("rosweep") and not res["tainted"]:
+            gk = job["group"]
+            if job.get("roinject") is None:
+                ro_state["final"][gk] = info.get("ro_final")
+            elif gk in ro_state["final"] and info.get("ro_final") != ro_state["final"][gk]:
+                a, b = ro_state["final"][gk], info.get("ro_final")
+                where = RO.first_diff(a, b) if a is not None and b is not None else "no sweep"
+                ro_hits.append(("read-only-call", "after read-only calls were made in between, the final state / what the observers answer at the end differs from the run without them",
+                                "as without the calls", where))
+        if info.get("ro_sweep_changed") and not res["tainted"]:
+            # the sweep at the end of the history made every call of the catalogue: as explicit elements they are checked one by one
+            changed, specs = info["ro_sweep_changed"]
+            ro_hits.append(("read-only-call", "the final look through every observer-style call changed the state of the tracker", "nothing changes", changed))
+            inp = dict(inp, history=list(history) + [["ro"] + sp for sp in specs])
+        if ro_hits:
+            report_read_only(ctx, job, inp, desc, ro_hits, ro_state)
         if "group" in job and not res["tainted"]:
             gk = job["group"]
             ref = groups.setdefault(gk, (outs, job))
@@ -1916,11 +2075,16 @@ def run(ctx):
                     d = next((i for i, (x, y) in enumerate(zip(a, b)) if x != y), min(len(a), len(b)))
                     if amb:
                         kind, what = "ambient-dependence", f"answers differ from the ordinary run under the ambient condition {amb}"
+                    elif job.get("roinject") is not None:
+                        kind, what = "read-only-call", "valid bursts are answered differently when read-only calls are made in between"
                     elif job.get("inject") is not None:
                         kind, what = "error-path-state", "valid bursts are answered differently when rejected calls are made in between"
                     else:
                         kind, what = "observer-isolation", "results depend on which observers raise (or on what they raise)"
-                    ctx.fail(kind, inp, f"{what} [{desc}] (first difference at answer {d})", expected=a[max(0, d - 1):d + 2], actual=b[max(0, d - 1):d + 2])
+                    if kind == "read-only-call":
+                        report_read_only(ctx, job, inp, desc, [(kind, f"{what} (first difference at answer {d})", a[max(0, d - 1):d + 2], b[max(0, d - 1):d + 2])], ro_state)
+                    else:
+                        ctx.fail(kind, inp, f"{what} [{desc}] (first difference at answer {d})", expected=a[max(0, d - 1):d + 2], actual=b[max(0, d - 1):d + 2])
         if amb not in REAL_ENTROPY and not res["tainted"]:
             pairs += list(zip(lines, outs))
             for ln, got in info.get("diag_pairs", []):
@@ -1963,6 +2127,48 @@ def run(ctx):
         ctx.notes.append("child interpreter: descriptors could not be broken: " + str(cres["broken_error"]))
 
 
+def ro_verdicts(job, history, sweep=True):
+    """what the read-only class finds in one history: the run with the calls (each checked where it is made) against the run without them"""
+    base = {"kind": "explicit", "raises": job["raises"], "watcher": job.get("watcher", False), "flavour": job.get("flavour", 0), "rosweep": True}
+    with_calls = job_run(dict(base, history=history))
+    plain = job_run(dict(base, history=[el for el in history if el[0] != "ro"]))
+    out = [f for f in with_calls["fails"] if f[0] == "read-only-call"]
+    if with_calls["tainted"] or plain["tainted"]:
+        return out
+    if sweep and with_calls["info"].get("ro_sweep_changed"):
+        out.append(("read-only-call", "the final look through every observer-style call changed the state of the tracker", "nothing changes", with_calls["info"]["ro_sweep_changed"][0]))
+    a, b = plain["outs"], with_calls["outs"]
+    if a != b:
+        d = next((i for i, (x, y) in enumerate(zip(a, b)) if x != y), min(len(a), len(b)))
+        out.append(("read-only-call", f"valid bursts are answered differently when read-only calls are made in between (first difference at answer {d})", a[max(0, d - 1):d + 2], b[max(0, d - 1):d + 2]))
+    fa, fb = plain["info"].get("ro_final"), with_calls["info"].get("ro_final")
+    if fa != fb:
+        out.append(("read-only-call", "after read-only calls were made in between, the final state / what the observers answer at the end differs from the run without them",
+                    "as without the calls", RO.first_diff(fa, fb) if fa is not None and fb is not None else "no sweep"))
+    return out
+
+
+def report_read_only(ctx, job, inp, desc, hits, state):
+    """a failing history of the read-only class is shortened before it is reported (the first few; afterwards as found, then counted)"""
+    ctx.count("read-only:failing-histories")
+    history = inp["history"]
+    if state["shrunk"] < 4 and len(history) <= 1500:
+        state["shrunk"] += 1
+        if ro_verdicts(job, history):
+            # (while shortening, the verdict of the final sweep is left out: it holds for every candidate and names no call)
+            small = RO.ddmin(history, lambda h: any(el[0] == "ro" for el in h) and bool(ro_verdicts(job, h, sweep=False)), max_runs=160)
+            again = ro_verdicts(job, small, sweep=False)
+            if again:
+                history, hits = small, again
+                ctx.count("read-only:failing-history-shortened")
+    elif state["reported"] >= 24:
+        return
+    state["reported"] += 1
+    inp = dict(inp, history=history)
+    for kind, what, exp, act in hits[:2]:
+        ctx.fail(kind, inp, f"{what} [{desc}; history of {len(history)} elements]", expected=exp, actual=act)
+
+
 def flush(ctx, pairs):
     if pairs and not ctx.search_only and ctx.driver_ok:
         ctx.correspond("terminal", pairs)
@@ -1977,7 +2183,7 @@ def replay(obj):
         print(json.dumps(obj, indent=1)[:4000])
         return 1
     job = {"kind": "explicit", "history": inp["history"], "raises": inp.get("raises", [True, False]), "watcher": bool(inp.get("watcher")),
-           "flavour": inp.get("flavour", 0), "ambient": inp.get("ambient")}
+           "flavour": inp.get("flavour", 0), "ambient": inp.get("ambient"), "rosweep": any(el[0] == "ro" for el in inp["history"])}
     if inp.get("interpreter"):
         lib()
         broken = "broken" in inp["interpreter"]
@@ -1993,15 +2199,22 @@ def replay(obj):
     res = job_run(job)
     lines, outs, fails = res["lines"], res["outs"], res["fails"]
     refouts = None
-    if job["ambient"] or any(el[0] == "bad" for el in job["history"]):
-        plain = dict(job, ambient=None, history=[el for el in job["history"] if el[0] != "bad"])
-        refouts = job_run(plain)["outs"]
+    if job["ambient"] or any(el[0] in ("bad", "ro") for el in job["history"]):
+        plain = dict(job, ambient=None, history=[el for el in job["history"] if el[0] not in ("bad", "ro")])
+        pres = job_run(plain)
+        refouts = pres["outs"]
+        for el in job["history"]:
+            if el[0] == "ro":
+                print("read-only call in the history:", RO.spec_text(el[1:]))
+        if job["rosweep"] and pres["info"].get("ro_final") != res["info"].get("ro_final") and not res["tainted"]:
+            fails = fails + [("read-only-call", "the final state / the observers' final answers differ from the run without the read-only calls",
+                              "as without the calls", RO.first_diff(pres["info"].get("ro_final"), res["info"].get("ro_final")))]
         if job["ambient"] in REAL_ENTROPY:
             differs = normalise_streams(refouts[1:]) != normalise_streams(outs[1:])
         else:
             differs = refouts != outs
         if differs and not res["tainted"]:
-            fails = fails + [("differs-from-ordinary-run", "the answers differ from the run without the ambient condition / rejected calls", refouts[:6], outs[:6])]
+            fails = fails + [("differs-from-ordinary-run", "the answers differ from the run without the ambient condition / rejected calls / read-only calls", refouts[:6], outs[:6])]
     model = None
     try:
         import common
